@@ -117,6 +117,11 @@ func (e *Enc) instr(cur *cursor, ins ssa.Instruction) {
 	case *ssa.Store:
 		addr := e.value(fc, x.Addr)
 		val := e.value(fc, x.Val)
+		if al, isVar := isLocalVarAlloc(x.Val); isVar {
+			if dst := rootAlloc(x.Addr); dst == nil || dst.Heap {
+				e.publishCheck(cur, al, x.Pos(), "stored")
+			}
+		}
 		e.store(cur, addr, val, x.Pos(), x.Addr)
 	case *ssa.UnOp:
 		e.unop(cur, x)
@@ -233,6 +238,7 @@ func (e *Enc) instr(cur *cursor, ins ssa.Instruction) {
 		if pt, ok := x.X.Type().Underlying().(*types.Pointer); ok && e.m.structOf(pt.Elem()) != nil && isStruct(pt.Elem()) && !isNonNilValue(x.X) {
 			e.safety(cur, "boxnil", fmt.Sprintf("(not (= %s Nil))", e.asTerm(e.value(fc, x.X))), x.Pos(), "a nil *"+pt.Elem().String()+" must not be stored in an interface")
 		}
+		e.publishCheck(cur, x.X, x.Pos(), "stored in an interface")
 		e.setVal(cur, x, e.box(e.value(fc, x.X), x.X.Type()))
 	case *ssa.ChangeInterface:
 		fc.vals[x] = term(e.asTerm(e.value(fc, x.X)), x.Type())
@@ -363,8 +369,18 @@ func (e *Enc) store(cur *cursor, addr, val Val, pos token.Pos, addrV ssa.Value) 
 		}
 		n, s := e.fieldArr(addr.SI, addr.Field)
 		e.heapSet(st, n, s, fmt.Sprintf("(store %s %s %s)", e.heapGet(st, n, s), addr.Base, vt))
-		if e.tinvName(addr.SI.named) != "" && !(e.isFreshAddr(addr.Base) && e.moreInitStores(cur, addrV)) {
-			e.tinvObligeStore(cur, addr.Base, addr.SI.named, pos, addr.SI.name+"."+addr.SI.st.Field(addr.Field).Name())
+		if !(e.isFreshAddr(addr.Base) && e.moreInitStores(cur, addrV)) {
+			if e.tinvName(addr.SI.named) != "" {
+				e.tinvObligeStore(cur, addr.Base, addr.SI.named, pos, addr.SI.name+"."+addr.SI.st.Field(addr.Field).Name())
+			}
+			for i, o := range addr.Outer {
+				if i == len(addr.Outer)-1 {
+					break // the immediate struct was handled above
+				}
+				if e.tinvName(o.ty) != "" {
+					e.tinvObligeStore(cur, o.addr, o.ty, pos, "a field of "+o.ty.String())
+				}
+			}
 		}
 	default:
 		a := e.asTerm(addr)
@@ -373,6 +389,9 @@ func (e *Enc) store(cur *cursor, addr, val Val, pos token.Pos, addrV ssa.Value) 
 			e.safety(cur, "nil", fmt.Sprintf("(not (= %s Nil))", a), pos, "nil dereference on store")
 		}
 		e.storeAt(st, a, pt.Elem(), vt)
+		if _, isVar := isLocalVarAlloc(addrV); isVar {
+			return // checked when the variable's address is published
+		}
 		if ia, ok := addrV.(*ssa.IndexAddr); ok {
 			if _, isSl := ia.X.Type().Underlying().(*types.Slice); isSl {
 				e.elemStoreOblige(cur, vt, pt.Elem(), pos, "slice element")
@@ -380,6 +399,14 @@ func (e *Enc) store(cur *cursor, addr, val Val, pos token.Pos, addrV ssa.Value) 
 		}
 		if isStruct(pt.Elem()) {
 			e.tinvObligeStore(cur, a, pt.Elem(), pos, "*"+pt.Elem().String())
+		}
+		// a store through an interior pointer also has to re-establish the invariants of the enclosing structs
+		if len(addr.Outer) > 0 && !(e.isFreshAddr(a) && e.moreInitStores(cur, addrV)) {
+			for _, o := range addr.Outer {
+				if e.tinvName(o.ty) != "" {
+					e.tinvObligeStore(cur, o.addr, o.ty, pos, "a field of "+o.ty.String())
+				}
+			}
 		}
 	}
 }
